@@ -16,7 +16,7 @@ def seq_queries(tier):
     qs = []
     for (c, v) in CTR_BACKENDS:
         for s in (SEQS_QUICK if tier == 'quick' else SEQS_QUICK + SEQS_MORE):
-            qs.append(ctr_q('seq', c, v, s, 'operation sequence %s (I init, K set_key, T tweak(ed key), C counter, P process %s bytes, X cleanup, Z zero; lower case = second object) on %s CTR objects, data symbolic: '
+            qs.append(ctr_q('seq', c, v, s, 'operation sequence %s (I init, K set_key, T tweak(ed key), C counter, P process %s bytes, X cleanup, Z zero; lower case = second object) on %s CTR objects (data concrete, justified by C08): '
                             'calls return 1 exactly while the object is live, nothing leaks, nothing is freed twice, every freed block is zero' % (s, 'B+3', be_name(c, v)),
                             {'OB_SEQ': 1, 'SEQ': '"%s"' % s}))
     return qs
@@ -66,7 +66,7 @@ def par_q(kind, c, name, desc, defs, **kw):
     return Q('%s:%s-parallel:%s' % (kind, CTR_CIPH[c], name), 'lcp.c', desc, defs=d, sanitize=True, timeout=kw.pop('timeout', 900), **kw)
 
 def par_seq_queries(tier):
-    return [par_q('seq', c, s, 'operation sequence %s (I init, K set_key, E encrypt 3 blocks, D decrypt, X cleanup, Z zero; lower case = second object) on %s parallel-ECB objects, back end chosen symbolically: '
+    return [par_q('seq', c, s, 'operation sequence %s (I init, K set_key, E encrypt 3 blocks, D decrypt, X cleanup, Z zero; lower case = second object) on %s parallel-ECB objects (data concrete, justified by C08), back end chosen symbolically: '
                   'calls return 1 exactly while live, nothing leaks, nothing freed twice, every freed block is zero' % (s, CTR_CIPH[c]), {'OB_SEQ': 1, 'SEQ': '"%s"' % s})
             for c in (1, 2, 3) for s in (PSEQ_QUICK if tier == 'quick' else PSEQ_QUICK + PSEQ_MORE)]
 
